@@ -176,8 +176,14 @@ class Runner:
         return d
 
     def run_model(self, script, timeout=300):
+        def big_stack():
+            import resource
+            try:
+                resource.setrlimit(resource.RLIMIT_STACK, (resource.RLIM_INFINITY, resource.RLIM_INFINITY))
+            except Exception:
+                pass
         p = subprocess.run([self.model_exe], input=script.encode("latin-1"), stdout=subprocess.PIPE,
-                           stderr=subprocess.PIPE, timeout=timeout)
+                           stderr=subprocess.PIPE, timeout=timeout, preexec_fn=big_stack)
         if p.returncode != 0:
             return p.stdout.decode("latin-1") + "\nMODEL-FAILED rc=%d %s\n" % (
                 p.returncode, p.stderr.decode("latin-1", "replace")[-500:])
